@@ -1,0 +1,8 @@
+//go:build verif
+
+package verifshim
+
+import "github.com/nsqio/nsq/internal/util"
+
+// UniqRands is the index selection used by nsqd's queueScanLoop.
+func UniqRands(quantity, maxval int) []int { return util.UniqRands(quantity, maxval) }
